@@ -499,6 +499,7 @@ pub fn check(args: &[String]) -> i32 {
                     original_events: 0,
                 };
                 let _ = std::fs::write(&path, serde_json::to_string_pretty(&rf).unwrap());
+                println!("violation code=C17-feature-off-differs-on-known-fields run_index={} :: decode / re-export / common-view digests differ between the two feature configurations on templates that hold only known fields", idx);
                 verdict.violations.push(("C17-feature-off-differs-on-known-fields".into(), path));
             }
             // findings of the feature-off build count too
